@@ -251,6 +251,66 @@ def lane_recorded(a, spec):
         if ok and cs2.head().height != h + 1 and h + 1 <= len(blocks):
             a.v("real-chain-not-followed", "after real blocks up to h=%d arrived the head height is %d" % (h + 1, cs2.head().height),
                 {"lane": "recorded"})
+    two_threads_on_recorded_blocks(a, cons, blocks, random.Random(spec.get("seed", 0)))
+
+
+def two_threads_on_recorded_blocks(a, cons, blocks, rng):
+    """the node validates in two threads (a peer's block in the networking thread, its own found block in the miner watcher): two
+    recorded blocks of the real network are validated at once, each on the state of its real predecessors -- thread A held at a
+    source location of the validation modules while thread B's validation completes -- and again afterwards; every one of these
+    validations must pass.  (scrypt's true values are looked up in a table the harness fills with the unreplaced function: the
+    parameters are the real ones, each value is computed once)"""
+    import skepticoin.coinstate as csm
+    import skepticoin.pow as pw
+    import skepticoin.datatypes as dt
+    import skepticoin.serialization as ser
+    import skepticoin.hash as hm
+    import skepticoin.merkletree as mt
+    from skepticoin.coinstate import CoinState
+    from skv import preempt
+    mods = [cons, csm, pw, dt, ser, hm, mt]
+    real_scrypt, table = cons.scrypt, {}
+
+    def looked_up(*args):
+        if args not in table:
+            table[args] = real_scrypt(*args)
+        return table[args]
+    cons.scrypt = looked_up
+    pre = preempt.Preempter(mods)
+    try:
+        if not pre.ok:
+            a.inc("two_thread_tool_slot_taken")
+            return
+        state = preempt.ModuleState(mods)
+        states = [CoinState.zero()]
+        for b in blocks:
+            states.append(states[-1].add_block_no_validation(b))
+
+        def job(i):
+            raw = blocks[i].serialize()
+
+            def work(_ctx):
+                blk = dt.Block.deserialize(raw)
+                new = states[i].add_block(blk, blk.timestamp)
+                return blk.hash() in new.block_by_hash
+            return work
+        n = len(blocks)
+        pairs = [(i, (i + 1) % n) for i in range(n)] + [(i, i) for i in range(0, n, 2)] + [((i + 2) % n, i) for i in range(n)]
+        for i, j in pairs:
+            for t in preempt.trials(pre, state, lambda: None, job(i), job(j), rng, 80):
+                a.n += 1
+                a.inc("two_thread_trials")
+                if t["want_a"] is not True or t["want_b"] is not True:
+                    continue
+                for who, got, _want in preempt.disagreements(t):
+                    a.v("recorded-block-refused-when-two-threads-validate", "%s: real block h=%d / h=%d validated by two threads at "
+                        "once (real scrypt values; switch at event %d of %d): %r" % (who, blocks[i].height, blocks[j].height, t["k"],
+                                                                                      t["total"], got),
+                        {"lane": "recorded", "two_threads": True, "heights": [blocks[i].height, blocks[j].height]})
+                    break
+    finally:
+        pre.close()
+        cons.scrypt = real_scrypt
 
 
 def lane_path(a, spec):
@@ -444,6 +504,7 @@ def finalize(m, tier):
                    ("path_wrong_id_at_checkpoint", c.get("path_wrong_id_at_checkpoint", 0), 2),
                    ("wire_format_headers", c.get("wire_format_headers", 0), 327),
                    ("checkpoint_candidates_on_known_parent", c.get("checkpoint_candidates_on_known_parent", 0), 1000),
-                   ("path_ids_compared_with_network_format", c.get("path_ids_compared_with_network_format", 0), 1000)],
+                   ("path_ids_compared_with_network_format", c.get("path_ids_compared_with_network_format", 0), 1000),
+                   ("two_thread_trials", c.get("two_thread_trials", 0), 200)],
         "extra": {},
     }
